@@ -25,7 +25,12 @@ constexpr uint64_t val(uint64_t v) { return v; }
 constexpr uint64_t val(const term_value<char>& t) { char c = t.get_value(); return term_hash(c - 'a', std::string_view(&c, 1)); }
 constexpr uint64_t val(const term_value<std::string_view>& t) { return term_hash(t.get_value()[0] - 'a', t.get_value()); }
 constexpr uint64_t val(no_type) { return 0xe44044ULL; }
-template<int R> struct F { template<class... A> constexpr uint64_t operator()(A&&... a) const { uint64_t h = hcomb(0xabcd, uint64_t(R)); ((h = hcomb(h, val(a))), ...); return h; } };
+// run time only: a digest of the source points that rule functors read from their term arguments (odd rules through get_sp(), even ones through get_line()/get_column())
+inline uint64_t& pos_digest() { static uint64_t d = 0x51ed; return d; }
+template<class X> inline void note_pos_rt(int R, const term_value<X>& t) { uint64_t l = (R % 2) ? t.get_sp().line : t.get_line(); uint64_t c = (R % 2) ? t.get_sp().column : t.get_column(); pos_digest() = hcomb(pos_digest(), hcomb(uint64_t(R), l * 1000003ULL + c)); }
+template<class X> inline void note_pos_rt(int, const X&) {}
+template<class A> constexpr void note_pos(int R, const A& a) { if (!__builtin_is_constant_evaluated()) note_pos_rt(R, a); }
+template<int R> struct F { template<class... A> constexpr uint64_t operator()(A&&... a) const { uint64_t h = hcomb(0xabcd, uint64_t(R)); ((h = hcomb(h, val(a)), note_pos(R, a)), ...); return h; } };
 // spelled terminals: the grammar's namespace supplies M::term_of(lexeme)
 constexpr uint64_t val2(uint64_t v) { return v; }
 constexpr uint64_t val2(no_type) { return 0xe44044ULL; }
@@ -36,13 +41,13 @@ template<class M> struct V2 {
   static constexpr uint64_t of(const term_value<char>& t) { char c = t.get_value(); return term_hash(M::term_of(std::string_view(&c, 1)), std::string_view(&c, 1)); }
   static constexpr uint64_t of(const term_value<std::string_view>& t) { return term_hash(M::term_of(t.get_value()), t.get_value()); }
 };
-template<int R, class M> struct F2 { template<class... A> constexpr uint64_t operator()(A&&... a) const { uint64_t h = hcomb(0xabcd, uint64_t(R)); ((h = hcomb(h, V2<M>::of(a))), ...); return h; } };
-template<int R, class M> struct FC2M { template<class C, class... A> constexpr uint64_t operator()(C&&, A&&... a) const { uint64_t h = hcomb(0xabcd, uint64_t(R)); ((h = hcomb(h, V2<M>::of(a))), ...); return h; } };
+template<int R, class M> struct F2 { template<class... A> constexpr uint64_t operator()(A&&... a) const { uint64_t h = hcomb(0xabcd, uint64_t(R)); ((h = hcomb(h, V2<M>::of(a)), note_pos(R, a)), ...); return h; } };
+template<int R, class M> struct FC2M { template<class C, class... A> constexpr uint64_t operator()(C&&, A&&... a) const { uint64_t h = hcomb(0xabcd, uint64_t(R)); ((h = hcomb(h, V2<M>::of(a)), note_pos(R, a)), ...); return h; } };
 template<int T> struct TF { constexpr uint64_t operator()(std::string_view sv) const { return term_hash(T, sv); } };
 // one functor TYPE for several terms, told apart by state only (e.g. typed_term(char_term('+'), as_op{add}) / typed_term(char_term('-'), as_op{sub}))
 struct TS { int t; constexpr uint64_t operator()(std::string_view sv) const { return term_hash(t, sv); } };
 template<int R> struct G { template<class... A> constexpr uint64_t operator()(A&&...) const { return uint64_t(R); } };
-template<int R> struct FC { template<class C, class... A> constexpr uint64_t operator()(C&&, A&&... a) const { uint64_t h = hcomb(0xabcd, uint64_t(R)); ((h = hcomb(h, val(a))), ...); return h; } };
+template<int R> struct FC { template<class C, class... A> constexpr uint64_t operator()(C&&, A&&... a) const { uint64_t h = hcomb(0xabcd, uint64_t(R)); ((h = hcomb(h, val(a)), note_pos(R, a)), ...); return h; } };
 // is T::run() a constant expression?  1 value / 0 empty / -1 not a constant expression
 template<class T, bool = (T::run().has_value(), true)> constexpr int probe(int) { return T::run().has_value() ? 1 : 0; }
 template<class T> constexpr int probe(...) { return -1; }
@@ -52,9 +57,9 @@ template<class T, bool = (T::make(), true)> constexpr int probe_make(int) { retu
 template<class T> constexpr int probe_make(...) { return -1; }
 inline std::string hex(const std::string& s) { static const char* d = "0123456789abcdef"; std::string o; for (unsigned char c : s) { o += d[c >> 4]; o += d[c & 15]; } return o; }
 template<class P, class B> void rt(const char* tag, const P& p, parse_options o, const B& b) {
-  std::ostringstream os;
+  std::ostringstream os; pos_digest() = 0x51ed;
   try { auto r = p.parse(o, b, os);
-  std::printf(" %s=%d:%llu:%s", tag, r.has_value() ? 1 : 0, (unsigned long long)(r.has_value() ? r.value() : 0), hex(os.str()).c_str()); }
+  std::printf(" %s=%d:%llu:%s p%s=%llu", tag, r.has_value() ? 1 : 0, (unsigned long long)(r.has_value() ? r.value() : 0), hex(os.str()).c_str(), tag, (unsigned long long)pos_digest()); }
   catch (const std::exception& e) { std::printf(" %s=EXC:0:%s", tag, hex(e.what()).c_str()); } }
 template<class Fn> void big_stack(Fn fn) { pthread_attr_t at; pthread_attr_init(&at); pthread_attr_setstacksize(&at, size_t(1) << 29); pthread_t th;
   auto tr = [](void* q) -> void* { (*static_cast<Fn*>(q))(); return nullptr; }; pthread_create(&th, &at, tr, &fn); pthread_join(th, nullptr); }
@@ -62,9 +67,15 @@ template<class Fn> void big_stack(Fn fn) { pthread_attr_t at; pthread_attr_init(
 '''
 
 
-def nname(i, nN):
-    """nonterminal names are prefixes of each other and the longest is declared first, so a symbol lookup that accepts a prefix binds the wrong symbol"""
-    return "n" * (nN - i)
+def nname(i, nN, flip=False):
+    """nonterminal names are prefixes of each other; the longest is declared first (flip: the shortest first), so a symbol lookup that accepts a
+    prefix - in either direction - binds the wrong symbol"""
+    return "n" * (i + 1) if flip else "n" * (nN - i)
+
+
+def names_flip(g):
+    import zlib
+    return zlib.crc32(json.dumps(g["rules"], sort_keys=True).encode()) % 3 == 0
 
 
 def cstr(b):
@@ -87,7 +98,7 @@ def render_grammar(gi, case, with_cases=True, lite=False, ctxmix=False, customle
     ns = "g%d" % gi
     nN = g["nN"]
     out = ["namespace %s {" % ns]
-    out.append("constexpr nterm<uint64_t> " + ", ".join('N%d("%s")' % (i, nname(i, nN)) for i in range(nN)) + ";")
+    out.append("constexpr nterm<uint64_t> " + ", ".join('N%d("%s")' % (i, nname(i, nN, names_flip(g))) for i in range(nN)) + ";")
     spelling = case.get("spelling")
     terms = []
     in_rules = {}
@@ -154,7 +165,7 @@ def render_grammar(gi, case, with_cases=True, lite=False, ctxmix=False, customle
                         out.append("constexpr string_term T%d(%s, %d, %s);" % (t, lit, ti["prec"], assoc))
                     decl[t] = "T%d" % t
                     in_rules[t] = ["T%d" % t, lit]          # an explicitly defined term may still be named by its literal in rules
-                tof.append("if (lex == std::string_view(%s)) return %d;" % (cxx_str(sp["text"]), t))
+                tof.append("if (lex == std::string_view(%s, %d)) return %d;" % (cxx_str(sp["text"]), len(sp["text"]), t))
         out.append("struct M { static constexpr int term_of(std::string_view lex) { %s return -1; } };" % " ".join(tof))
         terms = [decl[t] for t in case["decl_order"]]
         functor = "hh::F2<%d, M>{}"
@@ -221,6 +232,7 @@ def render_grammar(gi, case, with_cases=True, lite=False, ctxmix=False, customle
             n = len(bytes.fromhex(inp["hex"]))
             opts = "parse_options{}.set_skip_whitespace(%s).set_skip_newline(%s)" % ("true" if inp["ws"] else "false", "true" if inp["nl"] else "false")
             out.append('  { std::printf("CASE %s %d ce=9:0"); parse_options o = %s; static const char lit[] = %s; hh::rt("sb", p, o, string_buffer(std::string(lit, %d))); hh::rt("sv", p, o, string_view_buffer(std::string_view(lit, %d))); { static const std::string big = std::string(lit, %d) + " \\n\\t  ;;zz"; hh::rt("svs", p, o, string_view_buffer(std::string_view(big.data(), %d))); } std::printf("\\n"); }' % (ns, k, opts, lit, n, n, n, n))
+        out.append('  { std::ostringstream dg; p.write_diag_str(dg); std::printf("DIAG %s %%s\\n", hh::hex(dg.str()).c_str()); }' % ns)
         out.append("}")
     elif with_cases:
         for k, inp in enumerate(case["inputs"]):
@@ -255,6 +267,54 @@ def render_program(cases, idxs, lite=False, ctxmix=False, customlex=False):
     return "\n".join(parts)
 
 
+
+
+def expected_rule_lines(case):
+    """RULES section of write_diag_str as the README describes it: '<nr>    <lhs> <- <rhs names>' numbered in source order of rules(...)"""
+    g = case["grammar"]; nN = g["nN"]; sp = case.get("spelling"); flip = names_flip(g)
+    def tn(t):
+        if t == g["nT"] + 1:
+            return "<error_recovery_token>"
+        return sp[t]["name"] if sp else chr(ord('a') + t)
+    out = []
+    for i, r in enumerate(g["rules"]):
+        rhs = " ".join((nname(s["n"], nN, flip) if "n" in s else tn(s["t"])) for s in r["rhs"])
+        out.append((i, nname(r["lhs"], nN, flip), rhs))
+    return out
+
+
+def check_diag_text(text, case):
+    """C11 through the DSL: the RULES list must be the declared rules (names resolved to the declared symbols, numbered in source order),
+    and a grammar without LR(1) conflicts must not show a CONFLICT line (one with shift/reduce conflicts must)"""
+    lines = text.split("\n")
+    try:
+        a = lines.index("RULES"); b = lines.index("STATES")
+    except ValueError:
+        return "diagnostic text has no RULES / STATES section"
+    listed = {}
+    import re
+    block = "\n".join(lines[a + 1:b])
+    # one entry per rule number at the start of a line; a term's display name may itself contain a line break (string term ";\\n")
+    for ent in re.split(r"\n(?=\d+\s)", "\n" + block.strip("\n")):
+        if not ent.strip():
+            continue
+        head, _, rest = ent.partition("<-")
+        hw = head.split()
+        if len(hw) != 2 or not hw[0].isdigit():
+            return "unreadable RULES entry: %r" % ent
+        listed[int(hw[0])] = (hw[1], rest.strip())
+    for i, lhs, rhs in expected_rule_lines(case):
+        got = listed.get(i)
+        if got is None:
+            return "RULES list lacks rule %d" % i
+        if got[0] != lhs or " ".join(got[1].split()) != " ".join(rhs.split()):
+            return "RULES list does not describe the declared grammar: rule %d is listed as %r <- %r, declared %r <- %r" % (i, got[0], got[1], lhs, rhs)
+    nconf = sum(1 for ln in lines if "CONFLICT" in ln)
+    if not case.get("has_sr", False) and case["class"] != "precedence" and nconf:
+        return "diagnostic text shows %d CONFLICT line(s) for a grammar without LR(1) conflicts" % nconf
+    if case.get("has_sr", False) and nconf == 0:
+        return "diagnostic text shows no CONFLICT line for a grammar with shift/reduce conflicts"
+    return None
 
 # ---- C07 (second program kind): results that KEEP views into the caller's buffer ----------------------------------------
 def gen_c07v_texts(seed, n):
@@ -526,6 +586,10 @@ def emit_cases(seed, n, work, spelling=True, only_class=None, named_terms=False,
         env["EMIT_NAMED_TERMS"] = "1"
     if always_spelled:
         env["EMIT_ALWAYS_SPELLED"] = "1"
+    if os.environ.get("_EMIT_PID") == "C10":
+        env["EMIT_NEWLINE_TERM"] = "1"
+    if os.environ.get("_EMIT_PID") == "C07":
+        env["EMIT_NUL_TERM"] = "1"
     r = subprocess.run([eg, "--prop", "C07", "--mode", "emit", "--seed", str(seed), "--cases", str(n), "--size", "400", "--out", out], stdout=subprocess.PIPE, stderr=subprocess.STDOUT, env=env)
     if not os.path.exists(out):
         return None, r.stdout.decode("utf-8", "replace")[-3000:]
@@ -550,9 +614,10 @@ def run(pid, tier, seed, work, viol_dir, known_ids=()):
         cases = json.load(open(outp))["cases"]
         log = ""
     ncases = {"C03": {"quick": 16, "thorough": 160}, "C07": {"quick": 24, "thorough": 240}, "C17": {"quick": 8, "thorough": 60}, "C13": {"quick": 16, "thorough": 160},
-              "C01": {"quick": 16, "thorough": 160}, "C02": {"quick": 16, "thorough": 160}, "C05": {"quick": 16, "thorough": 160}, "C09": {"quick": 16, "thorough": 160}, "C18": {"quick": 12, "thorough": 120}}[pid][tier]
+              "C01": {"quick": 16, "thorough": 160}, "C02": {"quick": 16, "thorough": 160}, "C05": {"quick": 16, "thorough": 160}, "C09": {"quick": 16, "thorough": 160}, "C18": {"quick": 12, "thorough": 120}, "C10": {"quick": 12, "thorough": 120}, "C11": {"quick": 12, "thorough": 120}}[pid][tier]
+    os.environ["_EMIT_PID"] = pid
     if pid != "C03":
-      cases, log = emit_cases((seed + {"C01": 101, "C02": 202, "C05": 505, "C09": 909, "C18": 1818}.get(pid, 0)) % 0x7FFFFFFF or 1, ncases, work, spelling=(pid in ("C07", "C01", "C02", "C05", "C09", "C18")), only_class=(1 if pid == "C05" else None), named_terms=(pid == "C09"), always_spelled=(pid == "C18"))
+      cases, log = emit_cases((seed + {"C01": 101, "C02": 202, "C05": 505, "C09": 909, "C18": 1818, "C10": 1010, "C11": 1111}.get(pid, 0)) % 0x7FFFFFFF or 1, ncases, work, spelling=(pid in ("C07", "C01", "C02", "C05", "C09", "C18", "C10", "C11")), only_class=(1 if pid == "C05" else None), named_terms=(pid == "C09"), always_spelled=(pid in ("C18", "C10", "C11")))
     if cases is None:
         print("HARNESS-BUILD-FAILED engine=e_grammar (emit)")
         print(log)
@@ -567,7 +632,7 @@ def run(pid, tier, seed, work, viol_dir, known_ids=()):
     def lab(k, n=1):
         labels[k] = labels.get(k, 0) + n
 
-    lite = pid in ("C01", "C02", "C05", "C09", "C18")
+    lite = pid in ("C01", "C02", "C05", "C09", "C18", "C10", "C11")
     ctxmix = pid == "C05"
     customlex = pid == "C18"
     if pid == "C07" or lite:
@@ -624,6 +689,10 @@ def run(pid, tier, seed, work, viol_dir, known_ids=()):
                                 what = "expression grouped against the documented precedence/associativity rules in a parser written in the DSL (%s, %s)" % (tag, cxx)
                             elif pid == "C09" and m != want_msg:
                                 what = "error report differs from the reference (%s, %s)" % (tag, cxx)
+                            elif pid == "C10" and m != want_msg:
+                                what = "a position in an error message is not the true line/column (%s, %s)" % (tag, cxx)
+                            elif pid == "C10" and d.get("p" + tag) != inp.get("posdigest"):
+                                what = "a term value handed to a rule functor does not carry the true line/column of its first character (digest over all functor calls; get_sp() and get_line()/get_column(); %s, %s)" % (tag, cxx)
                             elif pid == "C18" and ((want_acc and v != want_val) or m != want_msg):
                                 what = "a parser over custom terms with a hand-written longest-match lexer (use_lexer) gives %s than the reference gives for the generated lexer (%s, %s)" % ("another value" if (want_acc and v != want_val) else "other messages", tag, cxx)
                             if what:
@@ -658,6 +727,22 @@ def run(pid, tier, seed, work, viol_dir, known_ids=()):
                         nontrivial.add((case["grammar"]["text"], inp["hex"], inp["ws"], inp["nl"]))
                         lab("kind:" + inp["kind"])
                     lab("compiler:" + cxx)
+                if pid == "C11":
+                    evaluations += 1
+                    dline = [ln for ln in res["out"].splitlines() if ln.startswith("DIAG g%d " % gidx)]
+                    what11 = None
+                    if not dline:
+                        what11 = "program printed no diagnostic text (crashed?)"
+                    else:
+                        text = bytes.fromhex(dline[0].split()[2]).decode("latin-1")
+                        what11 = check_diag_text(text, case)
+                    if what11:
+                        vp = os.path.join(viol_dir, "%s_diag_%s.json" % (pid, hashlib.sha1((json.dumps(case["grammar"]) + cxx).encode()).hexdigest()[:12]))
+                        one = dict(case); one["inputs"] = case["inputs"][:1]
+                        json.dump({"check": pid, "kind": "program", "lite": lite, "compiler": cxx, "what": what11 + " (%s)" % cxx, "cases": [one], "idxs": [0], "source": render_program([one], [0], lite, ctxmix, customlex)}, open(vp, "w"))
+                        violations.append((what11 + " (%s)" % cxx, vp))
+                    else:
+                        nontrivial.add(("diag", case["grammar"]["text"], cxx))
                 lab("class:" + case["class"])
                 if case.get("spelling"):
                     lab("spelled-terms")
@@ -928,7 +1013,7 @@ def replay(path):
             if d.get("lite"):
                 for tag in ("sb", "sv", "svs"):
                     a, v, m = g[tag].split(":") if g else ("EXC", "0", "")
-                    if a == "EXC" or int(a) != want_acc or (d["check"] in ("C02", "C05") and want_acc and v != want_val) or (d["check"] == "C09" and m != inp["messages_hex"]) or (d["check"] == "C18" and ((want_acc and v != want_val) or m != inp["messages_hex"])):
+                    if a == "EXC" or int(a) != want_acc or (d["check"] in ("C02", "C05") and want_acc and v != want_val) or (d["check"] in ("C09", "C10") and m != inp["messages_hex"]) or (d["check"] == "C10" and g.get("p" + tag) != inp.get("posdigest")) or (d["check"] == "C18" and ((want_acc and v != want_val) or m != inp["messages_hex"])):
                         bad += 1
                         break
                 continue
